@@ -77,6 +77,7 @@ func Cheque(id, user, amount, lockAcc)
         && xcalls("RemoveVotes")[old(xcalls("RemoveVotes")).len] == ev_RemoveVotes(id))
 
 func InnerRingCandidateAdd(key)
+  cover [C19] W(key) && !store.has("candidates" ++ key) && len(key) == 33
   ensures [C19] W(key) && !old(store).has("candidates" ++ key)
   ensures [C19] xcalls == old(xcalls) ++ [native_gas_Transfer(stdacct(key), self(), cfg(old(store), "InnerRingCandidateFee"), "\x57\x0b")]
   ensures [C19] store.has("candidates" ++ key)
@@ -84,6 +85,8 @@ func InnerRingCandidateAdd(key)
   ensures [C19] notifs == old(notifs)
 
 func OnNEP17Payment(from, amount, data)
+  cover [C19] amount == 900000000000 && callingScriptHash == gasHash()
+  cover [C19] amount == 1 && callingScriptHash == gasHash()
   // a deposit is reported only for GAS, 0 < amount <= 9000 GAS
   ensures [C19] notifs == old(notifs) || (0 < amount && amount <= 900000000000 && callingScriptHash == gasHash())
   ensures [C19] store == old(store) && xcalls == old(xcalls)
@@ -93,6 +96,7 @@ pure nT(i Int) Int = i
 
 // a withdrawal request charges exactly the configured fee: once to Processing with Notary, once per Alphabet key without
 func Withdraw(user, amount)
+  cover [C19] W(user) && amount == 9000 && !notaryDisabled(store)
   ensures [C19] W(user) && 0 <= amount && amount <= 9000
   ensures [C19] store == old(store)
   ensures [C19] notifs == old(notifs) ++ [Withdraw(user, amount * 100000000, txhash())]
